@@ -57,19 +57,22 @@ class Capture:
             cap.calls.append({'solver': 'solveh', 'ab': np.array(ab, dtype=float, copy=True),
                               'b': np.array(b, dtype=float, copy=True), 'lower': bool(kw.get('lower', False)),
                               'l_and_u': None})
-            return o_h(ab, b, **kw)
+            cap.calls[-1]['out'] = out = o_h(ab, b, **kw)
+            return out
 
         def solveb(l_and_u, ab, b, **kw):
             cap.calls.append({'solver': 'solve_banded', 'ab': np.array(ab, dtype=float, copy=True),
                               'b': np.array(b, dtype=float, copy=True), 'lower': False,
                               'l_and_u': (int(l_and_u[0]), int(l_and_u[1]))})
-            return o_b(l_and_u, ab, b, **kw)
+            cap.calls[-1]['out'] = out = o_b(l_and_u, ab, b, **kw)
+            return out
 
         def penta(ab, b, **kw):
             cap.calls.append({'solver': 'penta', 'ab': np.array(ab, dtype=float, copy=True),
                               'b': np.array(b, dtype=float, copy=True), 'lower': False, 'l_and_u': None,
                               'is_flat': kw.get('is_flat'), 'row_wise': kw.get('index_row_wise')})
-            return o_p(ab, b, **kw)
+            cap.calls[-1]['out'] = out = o_p(ab, b, **kw)
+            return out
 
         def solve(self_, lhs, rhs, *a, **kw):
             cap.flags.append((bool(self_.lower), bool(self_.reversed), bool(self_.using_pentapy),
@@ -103,8 +106,14 @@ def pentapy_available():
     return bool(bu._HAS_PENTAPY)
 
 
-def run_method(method, y, bs, **kw):
+def run_method(meth_name, y, bs, **kw):
+    method = meth_name
     from pybaselines import Baseline
+    if method == 'whittaker_smooth':
+        from pybaselines import utils
+        with warnings.catch_warnings():
+            warnings.simplefilter('ignore')
+            return utils.whittaker_smooth(np.asarray(y, dtype=float), **kw), {}
     f = Baseline(x_data=np.arange(len(y), dtype=float), check_finite=False, assume_sorted=True)
     f.banded_solver = bs
     with warnings.catch_warnings():
@@ -210,7 +219,9 @@ def dyadic_scale(arrs, limit=64):
     return None
 
 
-METH_CODE = {'asls': 0, 'iasls': 1, 'drpls': 2, 'aspls': 3}
+METH_CODE = {'asls': 0, 'iasls': 1, 'drpls': 2, 'aspls': 3, 'whittaker_smooth': 4}
+# single-solve users of the same add_diagonal path (weights in force = the weights/mask the method reports)
+SINGLE = ['whittaker_smooth', 'mpls', 'fabc', 'rubberband', 'peak_filling']
 
 
 def gen_case(rng, method, N, d, bs, hp, passes):
@@ -237,6 +248,25 @@ def gen_case(rng, method, N, d, bs, hp, passes):
         kw['alpha'] = np.array(alpha, dtype=float)
     elif method in ('psalsa', 'derpsalsa'):
         kw['p'] = 0.25
+    elif method == 'whittaker_smooth':
+        w = [rng.choice([0, 1, 2, 2, 3, 3]) for _ in range(N)]
+        for i in rng.sample(range(N), min(N, d + 2)):
+            w[i] = max(w[i], 1)
+        w[rng.randrange(N)] = rng.choice([2, 3])          # never a pure 0/1 mask
+        wdt = rng.choice([float, int, np.float32])
+        kw = dict(lam=float(lam), diff_order=d, weights=np.array(w, dtype=wdt), check_finite=rng.random() < 0.5)
+    elif method == 'mpls':
+        w[rng.randrange(N)] = 3
+        kw = dict(lam=float(lam), diff_order=d, weights=np.array(w, dtype=float), half_window=2)
+    elif method == 'fabc':
+        w[rng.randrange(N)] = 3
+        kw = dict(lam=float(lam), diff_order=d, weights=np.array(w, dtype=float), weights_as_mask=True)
+    elif method == 'rubberband':
+        y = [v * v // 8 + rng.randint(0, 6) for v in range(-N // 2, N - N // 2)]     # convex-ish, generic
+        kw = dict(lam=float(lam), diff_order=d, weights=np.array([min(v, 1) for v in w], dtype=float))
+    elif method == 'peak_filling':
+        w = [1] * N
+        kw = dict(lam_smooth=float(lam), half_window=1, sections=max(2, N // 3), max_iter=1)
     return dict(method=method, N=N, d=d, bs=bs, hp=hp, lam=lam, extra=extra, y=y, w=w, alpha=alpha, kw=kw)
 
 
@@ -245,13 +275,21 @@ def capture_case(case):
     kw = dict(case['kw'])
     with Capture(case['hp']) as cap:
         exc = None
+        res = None
         try:
-            run_method(case['method'], case['y'], case['bs'], **kw)
+            res = run_method(case['method'], case['y'], case['bs'], **kw)
         except Exception as e:  # noqa  (a singular system raises after the call was captured)
             exc = e
+    case['_result'] = res
     passes = []
     for k, call in enumerate(cap.calls):
-        if k == 0:
+        if case['method'] in SINGLE and case['method'] != 'whittaker_smooth':
+            if k > 0 or res is None:
+                break
+            par = res[1]
+            rep = par.get('weights', par.get('mask')) if case['method'] != 'peak_filling' else np.ones(case['N'])
+            w, al = np.asarray(rep, dtype=float), None
+        elif k == 0:
             w, al = np.array(case['w'], dtype=float), (np.array(case['alpha'], dtype=float) if case['alpha'] is not None else None)
         else:
             out = cap.reweights[k - 1] if k - 1 < len(cap.reweights) else None
@@ -289,7 +327,7 @@ def coq_case(case, passes_used, S):
     lam, extra = case['lam'], case['extra']
     if m == 'iasls':
         lam, extra = lam * S * S, extra * S * S
-    elif m in ASLS_TYPE:
+    elif m in ASLS_TYPE or m in SINGLE:
         lam = lam * S
     return (f'({code}, {coqbool(case["hp"])}, {case["bs"]}, {case["N"]}%nat, {case["d"]}%nat, {zl(lam)}, {zl(extra)}, '
             f'{wl}, {al}, {zlist(case["y"])}, {exp}, {dens})')
@@ -313,6 +351,7 @@ Definition ok (c : case_t) : bool :=
     if m =? 0 then asls hp bs N lam d wfs yf
     else if m =? 1 then iasls hp bs N lam extra d wfs yf
     else if m =? 2 then drpls hp bs N lam extra d wfs yf
+    else if m =? 4 then match whittaker_smooth hp N lam d (hd (fun _ => 0) wfs) yf with Some k => Some [k] | None => None end
     else aspls hp bs N lam d (combine wfs (map of_list al)) yf in
   match calls with
   | None => false
@@ -321,7 +360,7 @@ Definition ok (c : case_t) : bool :=
       && forallb (call_wf Nz) cs
       && all2 (fun (wa : list Z * list Z) (D : list (list Z)) =>
                  let w := of_list (fst wa) in let a := of_list (snd wa) in
-                 zll_eqb (dense Nz (if m =? 0 then doc_asls N d lam w
+                 zll_eqb (dense Nz (if (m =? 0) || (m =? 4) then doc_asls N d lam w
                                     else if m =? 1 then doc_iasls N d lam extra w
                                     else if m =? 2 then doc_drpls N d lam extra w
                                     else doc_aspls N d lam w a)) D)
@@ -357,15 +396,33 @@ def correspondence(ctx):
                         if method in ASLS_TYPE and method != 'asls' and (N not in sizes[:3] or bs == 2):
                             continue      # the other asls-type methods share the assembly code path
                         plan.append((method, N, d, bs, hp))
+    for method in SINGLE:
+        for d in ((2,) if method == 'peak_filling' else (1, 2, 3, 4)):
+            sizes = sorted(set([d + 2, d + 3, 2 * d + 1, 3 * d + 2, rng.randint(d + 2, Nmax)]))
+            if method in ('rubberband', 'peak_filling', 'mpls', 'fabc'):
+                sizes = [n for n in sizes if n >= 8] + [rng.randint(9, Nmax)]
+            else:
+                sizes = sorted(set(sizes + list(range(d + 2, d + 8)) + [2 * d, 2 * d + 2, 3 * d + 3]))
+                sizes = [n for n in sizes if n >= d + 2]
+            for N in sizes:
+                for bs in ((1,) if method == 'whittaker_smooth' else (1, 3, 4)):
+                    for hp in ((True, False) if (has_penta and bs < 3 and d == 2) else (False,)):
+                        plan.append((method, N, d, bs, hp))
+    captured_per_method = {}
     for (method, N, d, bs, hp) in plan:
         npass = 3 if method in ('asls', 'iasls') else 2
         case = gen_case(rng, method, N, d, bs, hp, npass)
         passes, exc = capture_case(case)
         key = {'kind': 'capture', 'method': method, 'N': N, 'd': d, 'bs': bs, 'hp': hp, 'lam': case['lam'],
-               'extra': case['extra'], 'y': case['y'], 'w': case['w'], 'alpha': case['alpha']}
+               'extra': case['extra'], 'y': case['y'], 'w': case['w'], 'alpha': case['alpha'],
+               'kw': {k: (v.tolist() if isinstance(v, np.ndarray) else v) for k, v in case['kw'].items()}}
+        captured_per_method.setdefault(method, 0)
         if not passes:
+            if method in SINGLE and method != 'whittaker_smooth':
+                continue      # e.g. a degenerate hull: the method raised before solving; counted below
             ctx.broke(f'correspondence:capture:{method}', f'no library solver call captured ({type(exc).__name__}: {exc}) for {key}')
             continue
+        captured_per_method[method] += 1
         # which passes have exactly representable (dyadic) weights
         used = []
         lim = 16 if method in ('asls', 'iasls') else 1
@@ -414,6 +471,9 @@ def correspondence(ctx):
         if len(ctx.samples) < 3:
             ctx.sample({k: key[k] for k in ('method', 'N', 'd', 'bs', 'hp', 'lam', 'extra')})
         lits.append(coq_case(case, plist, S))
+    for m, n in captured_per_method.items():
+        if n == 0:
+            ctx.broke(f'correspondence:capture:{m}', f'{m}: no run reached the banded solver')
     ctx.traces += len(lits)
     # evaluate inside Coq
     bad_any = False
@@ -642,6 +702,150 @@ def run_oracle_case(case, K=2):
     return out
 
 
+# ------------------------------------------------------------------ oracle: whittaker_smooth and the single-solve users
+def entrywise_bad(Acap, parts):
+    """Captured dense matrix vs the sum of `parts` (each computed with one rounding): first offending entry."""
+    Adoc = sum(parts)
+    mag = sum(np.abs(p_) for p_ in parts)
+    bad = np.abs(Acap.astype(LD) - Adoc) > 4 * EPS * mag
+    if bad.any():
+        i, j = np.argwhere(bad)[0]
+        return f'entry ({i},{j}) = {float(Acap[i, j])!r} but documented {float(Adoc[i, j])!r}'
+    return None
+
+
+def single_case(case):
+    """[(what, message or None)] : checks of one single-solve run; an implementation exception ends the case."""
+    m, N, d, lam, bs, hp = case['method'], case['N'], case['d'], case['lam'], case['bs'], case['hp']
+    y = np.array(case['y'], dtype=float)
+    kw = {k: (np.array(v, dtype=float) if isinstance(v, list) else v) for k, v in case['kw'].items()}
+    out = []
+    with Capture(hp) as cap:
+        try:
+            with np.errstate(all='ignore'):
+                base, par = run_method(m, y, bs, **kw)
+        except Exception:  # noqa
+            return out
+    calls = [c for c in cap.calls if 'out' in c]
+    if not calls or not np.all(np.isfinite(base)):
+        return out
+    P = DtD_ld(N, d)
+    eye = np.eye(N, dtype=LD)
+    bound = BOUND_C * N * EPS
+
+    def check_call(tag, call, parts, b_doc, result):
+        try:
+            A = densify(call, N)
+        except ValueError as e:
+            out.append((f'{tag}:call', str(e)))
+            return
+        msg = entrywise_bad(A, parts)
+        if msg:
+            out.append((f'{tag}:lhs', f'matrix reaching {call["solver"]}: {msg}'))
+        if b_doc is not None:
+            bd = np.asarray(b_doc, dtype=LD)
+            badb = np.abs(call['b'].astype(LD) - bd) > 4 * EPS * np.abs(bd)
+            if badb.any():
+                k = int(np.argwhere(badb)[0][0])
+                out.append((f'{tag}:rhs', f'right-hand side entry {k} = {float(call["b"][k])!r} but documented {float(bd[k])!r}'))
+        sol = np.asarray(call['out'], dtype=float)
+        if np.all(np.isfinite(sol)):
+            eta = backward_error(sum(parts), sol, (np.asarray(b_doc, dtype=LD) if b_doc is not None else call['b'].astype(LD)))
+            if not (eta <= bound):
+                out.append((f'{tag}:residual', f'solver output has normwise backward error {eta:.3e} > {bound:.3e}'))
+            if result is not None and not np.array_equal(sol, result):
+                out.append((f'{tag}:returned', 'the returned array is not the output of this solve'))
+        out.append((f'{tag}:ok', None))
+
+    if m == 'whittaker_smooth':
+        w = np.ones(N) if kw.get('weights') is None else np.asarray(kw['weights'], dtype=float)
+        check_call('system', calls[-1], [np.diag(w.astype(LD)), LD(lam) * P], w.astype(LD) * y.astype(LD), base)
+    elif m in ('mpls', 'fabc', 'rubberband'):
+        w = np.asarray(par['weights'] if 'weights' in par else par['mask'], dtype=float)
+        check_call('system', calls[-1], [np.diag(w.astype(LD)), LD(lam) * P], w.astype(LD) * y.astype(LD), base)
+    elif m == 'peak_filling':
+        check_call('smooth', calls[0], [eye, LD(lam) * P], y.astype(LD), None)
+    elif m == 'custom_bc':
+        check_call('smooth', calls[-1], [eye, LD(lam) * P], None, base)
+    elif m == 'jbcd':
+        alpha, beta, gamma = kw.get('alpha', 0.1), kw.get('beta', 10.0), kw.get('gamma', 1.0)
+        bm, gm = kw.get('beta_mult', 1.1), kw.get('gamma_mult', 0.909)
+        for k in range(len(calls) // 2):
+            last = 2 * k + 2 == len(calls)
+            check_call('signal', calls[2 * k], [eye, LD(gamma) * P], None, par['signal'] if last else None)
+            check_call('baseline', calls[2 * k + 1], [LD(1 + 2 * alpha) * eye, LD(2 * beta) * P], None, base if last else None)
+            gamma *= gm
+            beta *= bm
+    return out
+
+
+def oracle_single(ctx, budget):
+    rng = ctx.rng
+    has_penta = pentapy_available()
+    found = 0
+    methods = ['whittaker_smooth'] * 6 + ['mpls', 'fabc', 'rubberband', 'peak_filling', 'custom_bc', 'jbcd']
+    for run_i in range(ctx.n(1200, 6000) * budget):
+        m = methods[run_i % len(methods)]
+        nrng = np.random.default_rng(rng.getrandbits(32))
+        d = rng.choice([1, 2, 2, 3, 4])
+        lam = 10 ** rng.uniform(-2, 8)
+        bs = rng.choice([1, 2, 3, 4])
+        hp = has_penta and rng.random() < 0.7
+        if m == 'whittaker_smooth':
+            d = rng.choice([0, 1, 2, 2, 3, 4])
+            N = rng.randint(d + 2, 3 * d + 6) if rng.random() < 0.7 else rng.randint(d + 2, 80)
+            y = make_data(rng, N, rng.choice(['plain', 'offset', 'small', 'integer']))
+            kind = rng.choice(['frac', 'big', 'zeros', 'none', 'int'])
+            if kind == 'frac':
+                w = nrng.uniform(0.05, 1.0, N)
+            elif kind == 'big':
+                w = nrng.uniform(0.5, 50.0, N)
+            elif kind == 'zeros':
+                w = nrng.uniform(0.1, 3.0, N)
+                w[nrng.random(N) < 0.35] = 0.0
+                w[nrng.choice(N, size=min(N, d + 1), replace=False)] = 2.5
+            elif kind == 'int':
+                w = nrng.integers(1, 4, N).astype(float)
+            else:
+                w = None
+            kw = dict(lam=lam, diff_order=d, check_finite=rng.random() < 0.5)
+            if w is not None:
+                kw['weights'] = w
+            bs = 1
+        else:
+            N = rng.randint(40, 90)
+            y = make_data(rng, N, rng.choice(['plain', 'offset', 'small']))
+            if m == 'mpls':
+                kw = dict(lam=lam, diff_order=d, half_window=rng.randint(2, 6), p=rng.choice([0.0, 0.01, 0.2]))
+                if rng.random() < 0.4:
+                    kw['weights'] = nrng.uniform(0.05, 2.0, N)
+            elif m == 'fabc':
+                kw = dict(lam=lam, diff_order=d, scale=rng.choice([2, 3, 4]))
+                if rng.random() < 0.4:
+                    kw.update(weights=nrng.uniform(0.05, 2.0, N) * (nrng.random(N) < 0.8), weights_as_mask=True)
+            elif m == 'rubberband':
+                kw = dict(lam=lam, diff_order=d, segments=rng.choice([1, 2]))
+            elif m == 'peak_filling':
+                d = 2
+                kw = dict(lam_smooth=lam, half_window=3, sections=6)
+            elif m == 'custom_bc':
+                kw = dict(method='poly', lam=lam, diff_order=d, sampling=rng.choice([1, 2]),
+                          regions=((N // 4, N // 2),), method_kwargs={'poly_order': 2})
+            else:
+                lam = 1.0
+                kw = dict(half_window=4, diff_order=d, max_iter=rng.choice([0, 1, 3]), alpha=rng.choice([0.1, 0.5]),
+                          beta=10 ** rng.uniform(-1, 3), gamma=10 ** rng.uniform(-2, 2))
+        case = {'kind': 'single', 'method': m, 'N': N, 'd': d, 'lam': lam, 'bs': bs, 'hp': hp, 'y': [float(v) for v in y],
+                'kw': {k: (v.tolist() if isinstance(v, np.ndarray) else v) for k, v in kw.items()}}
+        res = single_case(case)
+        ctx.case(('single', m, N, d, bs, hp, run_i), nontrivial=len(res) > 0, kind=f'oracle:{m}:{"checked" if res else "no-solve"}')
+        for what, msg in res:
+            if msg is not None:
+                found += 1
+                ctx.fail(f'single:{m}:{what}', f'{m} (N={N}, diff_order={d}, lam={lam:.3g}, banded_solver={bs}, pentapy={hp}): {msg}', case)
+    return found
+
+
 BRPLS_KEY = 'returned-pair:brpls:first-pass-early-exit-returns-data'
 BRPLS_WITNESS = {'kind': 'oracle', 'method': 'brpls', 'N': 3, 'd': 1, 'lam': 100.0, 'bs': 2, 'hp': False, 'extra': 0,
                  'y': [5.17478765233889, 25.080956802604167, 15.066639056671212], 'w0': None, 'a0': None,
@@ -698,9 +902,12 @@ def run(ctx):
             ctx.fail(BRPLS_KEY, f'brpls regression witness (N=3, diff_order=1, {info}): {what}: normwise backward error '
                      f'{eta:.3e}', BRPLS_WITNESS)
     found = oracle_runs(ctx, budget)
+    found += oracle_single(ctx, budget)
     ctx.note(f'{ncap} captured runs compared exactly inside Coq; residual-certificate oracle budget x{budget}: {found} failing checks; '
-             'NOT covered: 2-D Whittaker (Kronecker systems, eigendecomposition), utils.whittaker_smooth, mpls/fabc/rubberband/'
-             'peak_filling/custom_bc/jbcd single solves, non-integer eta in the Coq tie (eta=1/4,1/2 only through the oracle), '
+             'utils.whittaker_smooth: theorem + exact tie + residual oracle; mpls/fabc(weights_as_mask)/rubberband/peak_filling: exact tie through the '
+             'asls model with the reported weights/mask + captured-call oracle; custom_bc(lam)/jbcd: captured-call oracle only (lhs entrywise, '
+             'solver residual, returned array = solver output; their right-hand sides are not re-derived); '
+             'NOT covered: 2-D Whittaker (Kronecker systems, eigendecomposition), non-integer eta in the Coq tie (eta=1/4,1/2 only through the oracle), '
              'passes >= 2 of methods other than asls/iasls in the Coq tie (non-dyadic weights; covered by the oracle)')
 
 
@@ -714,17 +921,14 @@ def replay(rep):
         bad = [(w, e) for (w, e, n, _) in run_oracle_case(case) if not (e <= BOUND_C * n * EPS)]
         print('replay oracle:', bad or 'property holds on this input')
         return 1 if bad else 0
+    if kind == 'single':
+        bad = [(w, msg) for (w, msg) in single_case(case) if msg is not None]
+        print('replay single:', bad or 'property holds on this input')
+        return 1 if bad else 0
     if kind == 'capture':
         c = dict(case)
-        c['kw'] = dict(lam=float(c['lam']), diff_order=c['d'], weights=np.array(c['w'], dtype=float), max_iter=0, tol=-1.0)
-        if c['method'] == 'iasls':
-            c['kw'].update(lam_1=float(c['extra']), p=0.25)
-        elif c['method'] == 'drpls':
-            c['kw'].update(eta=float(c['extra']))
-        elif c['method'] == 'aspls':
-            c['kw'].update(alpha=np.array(c['alpha'], dtype=float))
-        elif c['method'] in ('asls', 'psalsa', 'derpsalsa'):
-            c['kw'].update(p=0.25)
+        c['kw'] = {k: (np.array(v, dtype=float) if isinstance(v, list) else v) for k, v in c['kw'].items()}
+        c['kw'].update({k: 0 for k in ('max_iter',) if k in c['kw'] and c['method'] not in SINGLE})
         passes, exc = capture_case(c)
         if not passes:
             print('replay capture: no solver call captured', exc)
